@@ -32,6 +32,7 @@ pub const KF_BLOCK_OPERAND: &str = "C01-wasm-block-operand";
 pub const KF_PROJ_COND: &str = "C01-wasm-proj-in-cond-and-arm";
 pub const KF_CAPTURE_DESTRUCTURED: &str = "C01-wasm-closure-captures-destructured";
 pub const KF_ARRAY_INF: &str = "C01-array-index-infinite";
+pub const KF_WASM_TICK_CLOSURE: &str = "C11-wasm-tick-closure-memory-reused";
 pub const KF_VM_DOTS: &str = "C02-defaults-ignored-in-record-with-dots";
 pub const KF_ASSIGN_AFTER_ESCAPE: &str = "C01-vm-assignment-after-closure-passed-on";
 pub const KF_GLOBAL_RECORD_UPDATE: &str = "C02-field-assignment-to-global-record-ignored";
@@ -281,11 +282,13 @@ impl Prop for C01 {
                 Space { name: "gen", size: 3000, exhaustive: false, chunk: 60, case_timeout_s: 60.0, what: "generated typed core-language programs x input streams x run lengths" },
                 Space { name: "corpus", size: 500, exhaustive: false, chunk: 20, case_timeout_s: 60.0, what: "shipped sources and literal/operator mutants of them" },
                 Space { name: "sum", size: 1500, exhaustive: false, chunk: 50, case_timeout_s: 60.0, what: "generated programs over user-declared (also recursive) sum types with constructor matches" },
+                Space { name: "sched", size: 1500, exhaustive: false, chunk: 50, case_timeout_s: 60.0, what: "scheduler programs: 2-6 tasks, mostly due at the same sample, updating one global non-commutatively, some re-arming themselves" },
             ],
             Tier::Thorough => vec![
                 Space { name: "gen", size: 120_000, exhaustive: false, chunk: 200, case_timeout_s: 60.0, what: "generated typed core-language programs x input streams x run lengths" },
                 Space { name: "corpus", size: 20_000, exhaustive: false, chunk: 50, case_timeout_s: 60.0, what: "shipped sources and literal/operator mutants of them" },
                 Space { name: "sum", size: 60_000, exhaustive: false, chunk: 100, case_timeout_s: 60.0, what: "generated programs over user-declared (also recursive) sum types with constructor matches" },
+                Space { name: "sched", size: 60_000, exhaustive: false, chunk: 100, case_timeout_s: 60.0, what: "scheduler programs: 2-6 tasks, mostly due at the same sample, updating one global non-commutatively, some re-arming themselves" },
             ],
         }
     }
@@ -303,6 +306,17 @@ impl Prop for C01 {
                 let mut r = finish(&src, &inputs, n, false, std::mem::take(&mut classes), feat.stateful(), cx, "gen");
                 for id in off {
                     r.count(&format!("generator_switch_off:{id}"), 1);
+                }
+                r
+            }
+            "sched" => {
+                let far = cx.excluded(KF_WASM_TICK_CLOSURE);
+                let src = tg::schedsoup(g, far);
+                let inputs = gen_inputs(g);
+                let n = *g.pick(&[8u64, 12, 16]);
+                let mut r = finish(&src, &inputs, n, true, vec!["mode:sched".to_string()], true, cx, "sched");
+                if far {
+                    r.count(&format!("generator_switch_off:{KF_WASM_TICK_CLOSURE}"), 1);
                 }
                 r
             }
